@@ -66,3 +66,26 @@ func (p *FloatingIPPlugin) cloudProviderUnAssignIP(req *rpc.UnAssignIPRequest) e
 	glog.Infof("UnAssignIP %v success", req)
 	return nil
 }
+
+// unassignIPsOfKey sends unassign ip req to cloud provider for each ip of the key which is still assigned to a node.
+// Clearing node attr of a key (reserveIP) clears it for all its ips, so all of them have to be unassigned before.
+func (p *FloatingIPPlugin) unassignIPsOfKey(key, when string) error {
+	ipInfos, err := p.ipam.ByKeyAndIPRanges(key, nil)
+	if err != nil {
+		return fmt.Errorf("query floating ip by key %s: %v", key, err)
+	}
+	for _, ipInfo := range ipInfos {
+		if ipInfo.NodeName == "" {
+			continue
+		}
+		ipStr := ipInfo.IPInfo.IP.IP.String()
+		glog.Infof("UnAssignIP nodeName %s, ip %s, key %s %s", ipInfo.NodeName, ipStr, key, when)
+		if err := p.cloudProviderUnAssignIP(&rpc.UnAssignIPRequest{
+			NodeName:  ipInfo.NodeName,
+			IPAddress: ipStr,
+		}); err != nil {
+			return fmt.Errorf("UnAssignIP nodeName %s, ip %s: %v", ipInfo.NodeName, ipStr, err)
+		}
+	}
+	return nil
+}
